@@ -14,6 +14,7 @@ import (
 	"path/filepath"
 	"strconv"
 	"testing"
+	"time"
 
 	"github.com/ava-labs/avalanchego/database"
 	"github.com/ava-labs/avalanchego/ids"
@@ -33,6 +34,11 @@ func (t *vwTx) GetID() ids.ID    { return t.id }
 func (t *vwTx) GetExpiry() int64 { return t.expiry }
 
 type vwBlock struct {
+	// gate, when non-nil, makes the next GetContainers call announce itself on entered and wait for release: Accept
+	// reads the containers while it updates the window, so this parks Accept in the middle of its update
+	entered chan struct{}
+	release chan struct{}
+
 	name   string
 	id     ids.ID
 	parent ids.ID
@@ -47,7 +53,14 @@ func (b *vwBlock) GetParent() ids.ID       { return b.parent }
 func (b *vwBlock) GetTimestamp() int64     { return b.ts }
 func (b *vwBlock) GetHeight() uint64       { return b.height }
 func (b *vwBlock) GetBytes() []byte        { return []byte(b.name) }
-func (b *vwBlock) GetContainers() []*vwTx  { return b.txs }
+func (b *vwBlock) GetContainers() []*vwTx {
+	if e, r := b.entered, b.release; e != nil {
+		b.entered, b.release = nil, nil
+		close(e)
+		<-r
+	}
+	return b.txs
+}
 func (b *vwBlock) Contains(id ids.ID) bool {
 	for _, t := range b.txs {
 		if t.id == id {
@@ -196,6 +209,49 @@ func TestVerifWindow(t *testing.T) {
 					continue
 				}
 				b := kids[r.Intn(len(kids))]
+				if len(b.txs) > 0 && r.Intn(3) == 0 {
+					// a child repeating a transaction of b is verified WHILE b is being accepted (Accept parked inside its
+					// update): whatever the interleaving, the repeat must be refused
+					nb++
+					c := &vwBlock{name: fmt.Sprintf("b%d", nb), parent: b.id, pname: b.name, height: b.height + 1, ts: b.ts + int64(r.Intn(2))}
+					c.id = mkID(c.name)
+					rep := b.txs[r.Intn(len(b.txs))]
+					if rep.expiry >= c.ts && rep.expiry <= c.ts+W {
+						c.txs = []*vwTx{rep}
+						b.entered, b.release = make(chan struct{}), make(chan struct{})
+						entered, release := b.entered, b.release
+						accDone := make(chan struct{})
+						go func() { win.Accept(b); close(accDone) }()
+						<-entered
+						type vr struct{ err error }
+						vch := make(chan vr, 1)
+						go func() { vch <- vr{win.VerifyExpiryReplayProtection(ctx, c)} }()
+						var verr error
+						select {
+						case x := <-vch: // the verification did not wait for the accept
+							verr = x.err
+							close(release)
+						case <-time.After(40 * time.Millisecond): // it is waiting for the accept: let the accept finish
+							close(release)
+							verr = (<-vch).err
+						}
+						<-accDone
+						lastAcc = b
+						lines = append(lines, map[string]any{"ev": "accept", "id": b.name})
+						res := "ok"
+						switch {
+						case verr == nil:
+							idx.m[c.id] = c
+							verified = append(verified, c)
+						case errors.Is(verr, validitywindow.ErrDuplicateContainer):
+							res = "duplicate"
+						default:
+							res = "error:" + verr.Error()
+						}
+						lines = append(lines, map[string]any{"ev": "verify", "id": c.name, "parent": c.pname, "h": c.height, "ts": c.ts, "txs": txRecs(c.txs), "res": res, "during_accept": true})
+						continue
+					}
+				}
 				win.Accept(b)
 				lastAcc = b
 				lines = append(lines, map[string]any{"ev": "accept", "id": b.name})
